@@ -196,7 +196,7 @@ def _req_text(h, shape, payload, kw):
 
 OPEN = {"defn": "(defn f{i} []", "defclass": "(defclass C{i} []", "lfor": "(lfor _ [0] (do", "gfor": "(list (gfor _ [0] (do",
         "fn": "((fn []", "for": "(for [_ [0]]"}
-CLOSE = {"defn": ") (f{i})", "defclass": ")", "lfor": "None))", "gfor": "None)))", "fn": "))", "for": ")"}
+CLOSE = {"defn": ") (f{i})", "defclass": ")", "lfor": "None))", "gfor": "None)))", "fn": "))", "for": "None)"}
 
 
 def prefixes_in_use(history):
